@@ -38,8 +38,11 @@ FILES = {
     "clean": {"f0.c": "int ok0(int a) { return a + 1; }\n",
               "f1.c": "int ok1(int a) { return a + 2; }\n",
               "f2.c": "int ok2(int a) { return a + 3; }\n"},
-    "wp": {"f0.c": "void g(int *p);\nvoid caller(void) { g(0); }\n",
-           "f1.c": "void g(int *p) { *p = 1; }\n",
+    # the prototype is in a shared header: cppcheck links a call to a definition in another file through the location of the
+    # first declaration, with a local prototype there is no whole-program finding at all
+    "wp": {"f0.c": "#include \"wp.h\"\nvoid caller(void) { g(0); }\n",
+           "f1.c": "#include \"wp.h\"\nvoid g(int *p) { *p = 1; }\n",
+           "wp.h": "void g(int *p);\n",
            "f2.c": "int ok(int a) { return a + 1; }\n"},
 }
 
@@ -168,6 +171,10 @@ def main(tier, seed, replay=None):
     timeouts = [o for o in obs if o["exit"] == -999]
     if timeouts:
         raise vlib.InfraError("cppcheck timed out on %d cases" % len(timeouts))
+    # vacuity guard: the whole-program stratum must really produce a whole-program finding
+    nwp = sum(1 for o in obs if any(f["id"] == "ctunullpointer" for f in o["findings"]))
+    if nwp == 0:
+        raise vlib.InfraError("no run reported the whole-program finding of project 'wp': the stratum would be vacuous")
     bad = tlc_judge(obs)
     tres = runtrace.validate(runs, keep_dir=os.path.join(vlib.OUT, "replays", PID))
     violations = []
@@ -191,7 +198,7 @@ def main(tier, seed, replay=None):
            "evaluations": len(obs), "distinct_nontrivial": nontrivial,
            "rule": "cases enumerated by TLC from ExitStatus.tla (%d in total); quick = seeded sample of 420 valid cases + all invalid command lines; "
                    "non-trivial = distinct case whose run reported at least one finding" % total,
-           "exhaustive": tier == "thorough", "case_space": total, "bad_cases": len(bad),
+           "exhaustive": tier == "thorough", "case_space": total, "runs_with_whole_program_finding": nwp, "bad_cases": len(bad),
            "samples": [obs[0], obs[len(obs) // 2], obs[-1]]}
     vlib.write_evidence(PID, tier, seed, "model_checking", cov, time.time() - t0, violations=new,
                         assumptions=["findings are read from the --template output on stderr", "--safety mode is outside the property"])
